@@ -40,6 +40,31 @@ Definition like_spec := wild_spec 37 95.
 Definition ob """, 1)
 
 
+# when even model/Glob.v cannot be loaded (the tables could not be regenerated from util/glob.rs): the textbook specification
+# alone, so that the binary is still compared with it; the faithful verdicts are "unknown" (2)
+COQ_HEADER_SPEC = """From Coq Require Import List NArith Bool.
+From FS Require Import lib.Str lib.Regex lib.RegexParse.
+Import ListNotations. Open Scope N_scope.
+Definition ob (o : option bool) : N := match o with Some true => 1 | Some false => 0 | None => 2 end.
+Definition bb (b : bool) : N := if b then 1 else 0.
+Definition is_nil_ (x : str) : bool := match x with [] => true | _ => false end.
+Fixpoint any_suffix (f : str -> bool) (t : str) : bool := f t || match t with [] => false | _ :: t' => any_suffix f t' end.
+Fixpoint wild_spec (st on : N) (p subj : str) : bool :=
+  match p with
+  | [] => is_nil_ subj
+  | c :: p' => if c =? st then any_suffix (wild_spec st on p') subj
+               else match subj with [] => false | d :: t => (if c =? on then true else lower1 c =? lower1 d) && wild_spec st on p' t end
+  end.
+Definition glob_spec := wild_spec 42 63.
+Definition like_spec := wild_spec 37 95.
+Definition is_glob_ (p : str) : bool := existsb (fun c => (c =? 42) || (c =? 63)) p.
+Definition verdicts (p : str) (names : list str) :=
+  ( map (fun n => 2) names, map (fun n => 2) names, map (fun n => ob (is_match p n)) names,
+    map (fun n => bb (if is_glob_ p then glob_spec p n else str_eqb p n)) names,
+    map (fun n => bb (like_spec p n)) names, (@nil N, @nil N) ).
+"""
+
+
 def gen_names(rng, n):
     names = set()
     fixed = ["a", "A", "ab", "a.txt", "A.TXT", "f1.txt", "ff1", "f+1", "a+b", "x{1}", "a|b", "[a]", "(a)", "^a$", "a-b,c", "it's", "#1~",
@@ -195,8 +220,17 @@ def run(ctx):
     # model + spec, evaluated by Coq
     nl = glist([gstr(n) for n in names], "str")
     hdr = COQ_HEADER + "Definition names : list str := %s.\n" % nl
-    res = coq_eval(hdr, ["verdicts %s names" % gstr(p) for _, p in pats], ctx.scratch, tag="c12", shard=8,
-                   fallback_header=COQ_HEADER_FB + "Definition names : list str := %s.\n" % nl)
+    from .common import CheckError
+    model_available = True
+    try:
+        res = coq_eval(hdr, ["verdicts %s names" % gstr(p) for _, p in pats], ctx.scratch, tag="c12", shard=8,
+                       fallback_header=COQ_HEADER_FB + "Definition names : list str := %s.\n" % nl)
+    except CheckError as e:
+        if "coqc failed" not in str(e) or not ctx.proof_failure:
+            raise
+        model_available = False
+        ctx.notes.append("model/Glob.v could not be loaded after the proof failure; the binary is compared with the textbook specification only")
+        res = coq_eval(COQ_HEADER_SPEC + "Definition names : list str := %s.\n" % nl, ["verdicts %s names" % gstr(p) for _, p in pats], ctx.scratch, tag="c12s", shard=8)
     # harness: converter strings and the real regex crate
     conv = {}
     try:
@@ -216,7 +250,7 @@ def run(ctx):
         v = parse_nested(txt)
         eqv, likev, rxv, gspec, lspec, (cg, cl) = v
         cg, cl = "".join(map(chr, cg)), "".join(map(chr, cl))
-        if p in conv and conv[p][0] is not None and (conv[p][0] != cg or conv[p][1] != cl):
+        if model_available and p in conv and conv[p][0] is not None and (conv[p][0] != cg or conv[p][1] != cl):
             ctx.violation("correspondence-mismatch", "converter output differs from model.Glob.convert", input={"pattern": p},
                           observed=conv[p], model=[cg, cl], concrete=False, correspondence="harness convert_*_to_pattern vs model.Glob")
         pos, neg = OPS[kind]
